@@ -255,7 +255,12 @@ class _SetIteration:
             if not isinstance(to_iterate, _Base):
                 # We know _Base (Set, Bucket, Tree, TreeSet) will all iterate
                 # in sorted order. Other than that, we have no guarantee.
-                self.to_iterate = to_iterate = sorted(self.to_iterate)
+                # As a set operand it contributes each key once.
+                to_iterate = []
+                for k in sorted(self.to_iterate):
+                    if not to_iterate or not (to_iterate[-1] == k):
+                        to_iterate.append(k)
+                self.to_iterate = to_iterate
 
         if useValues:
             try:
